@@ -54,6 +54,11 @@ type ScriptedReader struct {
 	EOFWithData  bool
 	FailCall     int
 	FailWithData bool
+	// FailOnce makes the injected error transient: it is returned by one call only and the reader
+	// then carries on (allowed by the io.Reader contract). FailErr replaces ErrScriptedRead (e.g.
+	// io.ErrUnexpectedEOF, which a consumer must not mistake for its own end-of-stream signal).
+	FailOnce bool
+	FailErr  error
 
 	// MaxCalls bounds the number of Read calls (0 = 4*len(Data)+64); exceeding it panics, so that an
 	// implementation that keeps reading after EOF or an error is reported instead of hanging.
@@ -105,6 +110,14 @@ func (r *ScriptedReader) sizeMenu(fit int) (menu [6]int, n int) {
 	return
 }
 
+// InjectedErr is the error the reader returns when it fails.
+func (r *ScriptedReader) InjectedErr() error {
+	if r.FailErr != nil {
+		return r.FailErr
+	}
+	return ErrScriptedRead
+}
+
 func (r *ScriptedReader) Read(p []byte) (int, error) {
 	if len(p) == 0 {
 		return 0, nil
@@ -113,8 +126,8 @@ func (r *ScriptedReader) Read(p []byte) (int, error) {
 	if max := r.MaxCalls; r.Calls > max && (max > 0 || r.Calls > 4*len(r.Data)+64) {
 		panic("scripted reader: runaway read loop (the reader keeps being called after end of stream or an error)")
 	}
-	if r.Failed {
-		return 0, ErrScriptedRead
+	if r.Failed && !r.FailOnce {
+		return 0, r.InjectedErr()
 	}
 	if r.EOFSeen {
 		return 0, io.EOF
@@ -136,7 +149,9 @@ func (r *ScriptedReader) Read(p []byte) (int, error) {
 	}
 	// fault
 	fault := 0
-	if r.Ch != nil {
+	if r.Failed {
+		// transient error already delivered: no second fault
+	} else if r.Ch != nil {
 		if r.Faults {
 			if fit > 0 {
 				fault = r.Ch.Choose("read-fault", 3)
@@ -157,9 +172,9 @@ func (r *ScriptedReader) Read(p []byte) (int, error) {
 			copy(p, r.Data[r.Pos:r.Pos+n])
 			r.Pos += n
 			r.FailedWithData = true
-			return n, ErrScriptedRead
+			return n, r.InjectedErr()
 		}
-		return 0, ErrScriptedRead
+		return 0, r.InjectedErr()
 	}
 	if fit == 0 {
 		r.EOFSeen = true
@@ -189,6 +204,8 @@ func (r *ScriptedReader) Read(p []byte) (int, error) {
 // still recorded: "nothing is delivered after a failed write" is Calls == FailAt+1.
 type ScriptedPacketWriter struct {
 	FailAt int
+	// FailN is the byte count the failing call reports together with its error (0..188).
+	FailN int
 
 	Got    [][packet.PacketSize]byte
 	Calls  int
@@ -211,7 +228,7 @@ func (w *ScriptedPacketWriter) WritePacket(p *packet.Packet) (int, error) {
 	w.Calls++
 	w.Got = append(w.Got, *p)
 	if i == w.FailAt {
-		return 0, ErrScriptedWrite
+		return w.FailN, ErrScriptedWrite
 	}
 	return packet.PacketSize, nil
 }
